@@ -635,10 +635,11 @@ def r75(ctx, rep, br):
                     exempt = set()
                 elif len(ctxs) == 1 and ctxs[0][0] in ("if-true", "if-false"):
                     t = ctxs[0][1]
-                    p = _cmp_parts(t)
-                    if p and isinstance(p[0], ast.Name) and p[0].id == "status" and isinstance(p[2], (ast.List, ast.Tuple, ast.Set)):
-                        mem = {status_member(e) for e in p[2].elts}
-                        if (p[1] == "not in" and ctxs[0][0] == "if-true") or (p[1] == "in" and ctxs[0][0] == "if-false"):
+                    st_ = status_set_test(t)
+                    if st_ is not None:
+                        inside, mem = st_
+                        # the assignment runs when status is NOT in the exempt set
+                        if (not inside and ctxs[0][0] == "if-true") or (inside and ctxs[0][0] == "if-false"):
                             exempt = mem
                 desc = f"_build_result:{node.lineno} feasibility post-condition exempt statuses {sorted(map(str, exempt)) if exempt is not None else '?'}"
                 if exempt is not None and exempt <= {"TARGET_SUCCESS", "FEASIBLE_SUCCESS"}:
@@ -667,6 +668,34 @@ def r75(ctx, rep, br):
                 ok = True
     if not ok:
         raise AnalysisError("_build_result: no store to result.status")
+
+
+def status_set_test(t, var="status"):
+    """(inside, members): the test is true iff status is (inside) / is not (not
+    inside) one of the members.  Understands `in` / `not in` a literal
+    collection, chains of == joined by `or`, chains of != joined by `and`, and
+    `not`."""
+    if isinstance(t, ast.UnaryOp) and isinstance(t.op, ast.Not):
+        r = status_set_test(t.operand, var)
+        return None if r is None else (not r[0], r[1])
+    p = _cmp_parts(t)
+    if p and isinstance(p[0], ast.Name) and p[0].id == var:
+        if isinstance(p[2], (ast.List, ast.Tuple, ast.Set)) and p[1] in ("in", "not in"):
+            mem = {status_member(e) for e in p[2].elts}
+            if None in mem:
+                return None
+            return (p[1] == "in", mem)
+        if p[1] in ("==", "!=", "is", "is not") and status_member(p[2]):
+            return (p[1] in ("==", "is"), {status_member(p[2])})
+    if isinstance(t, ast.BoolOp):
+        parts = [status_set_test(v, var) for v in t.values]
+        if any(x is None for x in parts):
+            return None
+        if isinstance(t.op, ast.Or) and all(x[0] for x in parts):
+            return (True, set().union(*[x[1] for x in parts]))
+        if isinstance(t.op, ast.And) and all(not x[0] for x in parts):
+            return (False, set().union(*[x[1] for x in parts]))
+    return None
 
 
 def _call_short(e):
